@@ -50,6 +50,7 @@ PINS = ["gwcs/api.py::GWCSAPIMixin._remove_quantity_output", "gwcs/api.py::GWCSA
         "gwcs/coordinate_frames.py::TemporalFrame.coordinate_to_quantity", "gwcs/coordinate_frames.py::Frame2D.coordinates"]
 HEADER = ("From Coq Require Import QArith List Bool. Import ListNotations.\n"
           "From GW Require Import C16.Units C16.UnitsQ.\nOpen Scope Q_scope.\n")
+MIXED = 0.2      # share of generated WCSs with mixed unit-ness (enabled once /repo handles them)
 TH_GENERIC = ["values_twin_forward", "values_twin_backward", "objects_twin", "invert_sky_any_frame", "wrong_pixel_unit_rejected_free",
               "wrong_pixel_unit_rejected_units", "with_units_in_declared_units"]
 TH_R = ["same_quantity_same_value", "invert_any_unit_units", "invert_any_unit_free", "nonzero_units_exist"]
@@ -160,6 +161,8 @@ class Spec:
             k = fb / T[self.tout[i]][2]
             self.rows.append((a * k, b * k))
         self.uin = ["pix"] * self.n
+        # mixed unit-ness: the forward transform carries units, its user-supplied inverse works on bare numbers in frame units
+        self.bq = not (rng.random() < MIXED)
         self._build()
 
     def _build(self):
@@ -173,6 +176,13 @@ class Spec:
             mf = models.Scale(float(a * k)) | models.Shift(float(b * k))
             tu = mu if tu is None else tu & mu
             tf = mf if tf is None else tf & mf
+        if not self.bq:
+            inv = None
+            for i, (a, b) in enumerate(self.rows):
+                kb = float(T[self.uout[i]][2] / T[self.tout[i]][2])
+                mi = models.Scale(kb) | models.Shift(-float(b)) | models.Scale(1.0 / float(a))
+                inv = mi if inv is None else inv & mi
+            tu.inverse = inv
         fu = tuple(T[n][3] for n in self.uout)
 
         def frames():
@@ -200,7 +210,7 @@ class Spec:
         T = self.T
         rows = glist([f"({gq(a)}, {gq(b)})" for a, b in self.rows])
         ul = lambda names: glist([gunit(T, n) for n in names])  # noqa: E731
-        return (f"(Build_spec {rows} {ul(self.uin)} {ul(self.tout)} {self.kin} {ul(self.uin)} {self.kout} {ul(self.uout)})")
+        return (f"(Build_spec {rows} {ul(self.uin)} {ul(self.tout)} {self.kin} {ul(self.uin)} {self.kout} {ul(self.uout)} {gbool(self.bq)})")
 
     def forward_frame_units(self, xs):
         """exact forward image in frame units"""
